@@ -17,6 +17,21 @@ print(len(stable-passed))
 print(' '.join(sorted(stable-passed)), file=sys.stderr)
 PY
 )
+if [ "$tests" != "0" ]; then
+  # the two drawing tests are flaky on the untouched checkout as well (DESIGN 11.3): re-run just those, with the change still applied
+  if /venv/bin/python -m pytest -q -p no:cacheprovider --timeout=900 "tests/drawing/test_draw.py::test_issue_515" "xgi/drawing/draw.py::xgi.drawing.draw.draw" >/dev/null 2>&1; then
+    tests=$(python3 - <<PY
+import json, xml.etree.ElementTree as ET
+b=json.load(open('/root/.vp/BASELINE.json')); stable=set(b['stable_pass'])
+passed=set()
+for tc in ET.parse('$wt/junit.xml').iter('testcase'):
+    if not any(ch.tag in('failure','error','skipped') for ch in tc): passed.add(tc.get('classname','')+'::'+tc.get('name',''))
+print(len(stable-passed-{'tests.drawing.test_draw::test_issue_515','xgi.drawing.draw::xgi.drawing.draw.draw'}))
+PY
+)
+    echo "$name: drawing tests re-run alone pass; other stable tests missing: $tests"
+  fi
+fi
 sed "s#/tmp/wt-$pid#$wt#g" "$demo" > $wt/_demo.py
 /venv/bin/python _demo.py >/dev/null 2>&1; with=$?
 git checkout -q -- xgi
